@@ -136,6 +136,53 @@ def s_precedence(name: str, block: bool, local: bool, arg: bool, matter: bool, t
 TWIN_T = ENV.from_string("{% assign a = a | reverse %}{{ a | first }}")
 
 
+LAYERS = ["block", "local", "arg", "matter", "tglobal", "eglobal"]
+
+
+@cond(
+    pre=["0 <= hi < 6", "0 <= lo < 7", "hi < lo"],
+    timeout=300,
+    shard={"name": ["v", "now"]},
+    covers="a name bound to nil (or false, or an empty string) in a higher-priority layer shadows every lower layer: the lower binding must not show through",
+    bounds="all ordered pairs of the 6 data/template layers (+ built-in for `now`, + counter for v) x shadowing value in {nil, false, ''}",
+    grid=lambda: [(nm, hi, lo, sv) for nm in ("v", "now") for hi in range(6) for lo in range(hi + 1, 7) for sv in range(3)],
+)
+def s_nil_shadows(name: str, hi: int, lo: int, sv: int) -> bool:
+    hi, lo = concrete_int(hi, 0, 5), concrete_int(lo, 0, 6)
+    shadow = [None, False, ""][concrete_int(sv, 0, 2)]
+    shadow_lit = ["nil", "false", "''"][sv]
+
+    def val(layer: int):
+        if layer == hi:
+            return (True, shadow)
+        if layer == lo:
+            return (True, 7)
+        return (False, None)
+
+    present = [val(k) for k in range(6)]
+    src = ""
+    if lo == 6 and name == "v":
+        src += "{% increment v %}|"  # lowest layer: the counter
+    if present[1][0]:
+        src += "{% assign " + name + " = " + (shadow_lit if hi == 1 else "7") + " %}"
+    if present[0][0]:
+        src += "{% with " + name + ": " + (shadow_lit if hi == 0 else "7") + " %}[{{ " + name + " }}]{% endwith %}"
+    else:
+        src += "[{{ " + name + " }}]"
+
+    def build():
+        e = Environment(loader=_MatterLoader(src, {name: present[3][1]} if present[3][0] else {}), globals={name: present[5][1]} if present[5][0] else None)
+        return e.get_template("t", globals={name: present[4][1]} if present[4][0] else None)
+
+    t = untraced(build)
+    try:
+        out = t.render(**({name: present[2][1]} if present[2][0] else {}))
+    except LiquidError:
+        return False
+    i, j = out.find("["), out.find("]")
+    return out[i + 1 : j] == ("false" if shadow is False else "")
+
+
 @cond(pre=["0 <= i0 <= 2"], twin=True, timeout=60, covers="reachability twin: templates do shadow the caller's names locally")
 def twin_shadow(i0: int) -> bool:
     out = TWIN_T.render(a=[i0, 9])
